@@ -21,4 +21,12 @@ func TestC08(t *testing.T) { runProp(t, "C08") }
 func TestC09(t *testing.T) { runProp(t, "C09") }
 func TestC10(t *testing.T) { runProp(t, "C10") }
 func TestC20(t *testing.T) { runProp(t, "C20") }
-func TestC33(t *testing.T) { runProp(t, "C33") }
+func TestC33(t *testing.T) {
+	sim.Main(t, sim.Spec{Property: "C33", Engine: "E1-cluster", Run: func(c *sim.Ctx) {
+		if c.Knob("mode", func() int64 { return int64(c.PickW("mode", []int{3, 1})) }) == 1 {
+			RunRootsDirect(c) // direct drive of abft.Store: thousands of short histories per second
+		} else {
+			Run(c, "C33")
+		}
+	}})
+}
